@@ -109,6 +109,21 @@ def replay(rec: Dict[str, Any]) -> List[Tuple[str, Dict[str, Any], str]]:
                 except BaseException:  # noqa: BLE001
                     pass
                 break
+    # (only where the keys spelling cannot be read as a member name: after a dot, a spelling that begins with a name character - any
+    #  non-ASCII character is one in RFC 9535 - IS a shorthand name, whatever the environment calls it)
+    if not disc and "dot" in rec and untext(rec["assign"]["keys"])[:1].isascii() and not (untext(rec["assign"]["keys"])[:1].isalnum() or untext(rec["assign"]["keys"])[:1] == "_"):
+        # the dotted shorthand of the same program (names, wildcard and the keys selector after a dot), in this environment
+        dot = untext(rec["dot"])
+        try:
+            pd = env.compile(dot)
+            for d, dt in enumerate(_state["docs"]):
+                if [canon(tag(v)) for v in pd.findall(untag(dt["doc"]), filter_context=untag(_state["ctx"]))] != [canon(v) for v in rec["res"][d]]:
+                    disc = "dotted-spelling:different-result-than-default-spelling"
+                    break
+        except BaseException as e:  # noqa: BLE001
+            disc = f"dotted-spelling:raised-{exc_family(e)}"
+        if disc:
+            extra = {"dotted_spelling": dot}
     if not disc:
         return []
     lens = "+".join(f"{k}:{len(untext(rec['assign'][k]))}" for k in changed)
